@@ -401,9 +401,35 @@ impl World {
             })
         }));
         let notes = simk::kernel().take_notes();
+        // Mapping balance: everything a10 mapped from the ring descriptor was
+        // unmapped exactly once with the same length, and the descriptor is closed.
+        let mut problems = Vec::new();
+        {
+            let k = simk::kernel();
+            for (addr, len, fd, off) in &k.maps {
+                let n = k.unmaps.iter().filter(|(a, l)| a == addr && l == len).count();
+                if n != 1 {
+                    let near: Vec<_> = k.unmaps.iter().filter(|(a, _)| a == addr).collect();
+                    problems.push(format!("mapping of ring fd {fd} offset {off:#x} ({len} bytes) unmapped {n} times (unmaps at that address: {near:?})"));
+                }
+            }
+            for (addr, len) in &k.unmaps {
+                if !k.maps.iter().any(|(a, l, _, _)| a == addr && l == len) {
+                    problems.push(format!("munmap({addr:#x}, {len}) does not match a mapping"));
+                }
+            }
+        }
+        if unsafe { libc::fcntl(self.rfd, libc::F_GETFD) } != -1 {
+            problems.push(format!("ring descriptor {} still open after every handle was dropped", self.rfd));
+            unsafe { libc::close(self.rfd) };
+        }
         simk::forget_closed_rings();
         let (leaks, incidents) = alloc::end();
-        (leaks, incidents, notes, result.err().map(panic_message))
+        let mut panic = result.err().map(panic_message);
+        if !problems.is_empty() {
+            panic = Some(format!("{}{}", panic.map(|p| p + "; ").unwrap_or_default(), problems.join("; ")));
+        }
+        (leaks, incidents, notes, panic)
     }
 }
 
@@ -510,6 +536,26 @@ fn canon_entries(v: &Value) -> Vec<Value> {
         .unwrap_or_default()
 }
 
+/// One decision per cancel entry currently published, in order.
+fn cancel_decisions(world: &World, act: &Value) -> VecDeque<bool> {
+    let kern = simk::kernel();
+    let mut d = VecDeque::new();
+    if let Some(ring) = kern.rings.get(&world.rfd) {
+        let mut h = ring.sq_head();
+        let t = ring.sq_tail();
+        let mut i = 0;
+        while h != t {
+            let sqe = ring.read_sqe(h);
+            if sqe.opcode() == abi::OP_ASYNC_CANCEL {
+                d.push_back(act["ch"][i].as_bool().unwrap_or(true));
+            }
+            h = h.wrapping_add(1);
+            i += 1;
+        }
+    }
+    d
+}
+
 /// Execute one action; returns the divergences (earliest first).
 fn step(world: &mut World, act: &Value, kernel_access: &mut BTreeSet<u64>) -> Vec<Divergence> {
     let mut div = Vec::new();
@@ -536,6 +582,20 @@ fn step(world: &mut World, act: &Value, kernel_access: &mut BTreeSet<u64>) -> Ve
         "Drop" => {
             if let Err(e) = world.drop_op(o) {
                 div.push(Divergence { tag: "C06", field: "drop panicked", expected: json!(null), observed: json!(e) });
+            }
+        }
+        "DropRing" => {
+            let decisions = cancel_decisions(world, act);
+            simk::kernel().cancel_decisions = decisions;
+            simk::set_on_block(None);
+            if let Some(ring) = world.ring.take() {
+                if let Err(p) = catch_unwind(AssertUnwindSafe(|| alloc::tracked(|| drop(ring)))) {
+                    div.push(Divergence { tag: "C12", field: "dropping the Ring panicked", expected: json!(null), observed: json!(panic_message(p)) });
+                }
+            }
+            let left: Vec<u64> = simk::kernel().rings.get(&world.rfd).map_or_else(Vec::new, |r| r.inflight.iter().map(|q| q.sqe.user_data()).collect());
+            if !left.is_empty() {
+                div.push(Divergence { tag: "C12", field: "requests still in flight after the Ring was dropped", expected: json!([]), observed: json!(left) });
             }
         }
         "DropRes" => {
@@ -567,25 +627,7 @@ fn step(world: &mut World, act: &Value, kernel_access: &mut BTreeSet<u64>) -> Ve
         "RingPoll" => {
             let k = act["k"].as_str().unwrap_or("");
             let tmo_zero = k.starts_with("zero");
-            let decisions: VecDeque<bool> = {
-                // One decision per cancel entry currently published, in order.
-                let kern = simk::kernel();
-                let mut d = VecDeque::new();
-                if let Some(ring) = kern.rings.get(&world.rfd) {
-                    let mut h = ring.sq_head();
-                    let t = ring.sq_tail();
-                    let mut i = 0;
-                    while h != t {
-                        let sqe = ring.read_sqe(h);
-                        if sqe.opcode() == abi::OP_ASYNC_CANCEL {
-                            d.push_back(act["ch"][i].as_bool().unwrap_or(true));
-                        }
-                        h = h.wrapping_add(1);
-                        i += 1;
-                    }
-                }
-                d
-            };
+            let decisions = cancel_decisions(world, act);
             simk::kernel().cancel_decisions = decisions;
             let blocks = act["blocks"].as_bool().unwrap_or(false);
             let block_op = if blocks { o } else { 0 };
@@ -704,7 +746,7 @@ fn step(world: &mut World, act: &Value, kernel_access: &mut BTreeSet<u64>) -> Ve
     let subm = world.new_entries(tail_before);
     let exp_subm = canon_entries(&act["subm"]);
     let obs_subm: Vec<Value> = subm.iter().map(|e| json!({"t": e["t"], "o": e["o"]})).collect();
-    if name != "RingPoll" && name != "KPost" && obs_subm != exp_subm {
+    if name != "RingPoll" && name != "KPost" && name != "DropRing" && obs_subm != exp_subm {
         let tag = if name == "DropRes" {
             "C07"
         } else if name == "Drop" || obs_subm.iter().chain(exp_subm.iter()).any(|e| e["t"].as_str().is_some_and(|t| t.starts_with("cancel"))) {
@@ -966,6 +1008,7 @@ fn main() {
         }
         let examined = first.as_ref().map_or(path.len(), |(si, _)| *si + 1);
         progress.set(pi as u64, path.len() as u64);
+        let op_states: BTreeSet<u64> = world.addr.values().copied().collect();
         let (leaks, incidents, _notes, teardown_panic) = world.finish();
         let mut records = Vec::new();
         if let Some((si, divs)) = first {
@@ -979,7 +1022,7 @@ fn main() {
         } else {
             // Only judge the end state of paths that conformed all the way.
             if let Some(m) = teardown_panic {
-                records.push(json!({"path": pi, "step": path.len(), "tag": "C12", "field": "teardown panicked", "expected": null, "observed": m}));
+                records.push(json!({"path": pi, "step": path.len(), "tag": "C12", "field": "teardown: panic / mappings / ring descriptor", "expected": null, "observed": m}));
             }
             for inc in incidents {
                 let (tag, what) = match inc {
@@ -989,7 +1032,9 @@ fn main() {
                 records.push(json!({"path": pi, "step": path.len(), "tag": tag, "field": what, "expected": null, "observed": format!("{inc:?}")}));
             }
             if !leaks.is_empty() {
-                records.push(json!({"path": pi, "step": path.len(), "tag": "C06", "field": "allocations never released",
+                // State of an operation never reclaimed: C06; anything else: C12.
+                let tag = if leaks.iter().any(|l| op_states.contains(&(l.0 as u64))) { "C06" } else { "C12" };
+                records.push(json!({"path": pi, "step": path.len(), "tag": tag, "field": "allocations never released",
                     "expected": [], "observed": leaks.iter().map(|l| json!({"size": l.1, "serial": l.2})).collect::<Vec<_>>()}));
             }
         }
